@@ -215,6 +215,25 @@ func TestC12(t *testing.T) {
 			c.Sample(map[string]any{"layer": "failed-produce", "script": h.Script, "batches": h.Len(), "failed_produce_calls": len(fails), "emitted": fm.Batches})
 		}
 	})
+	// every dictionary-encodable field unique per item: all dictionary columns of every record type change
+	// their index width (or overflow) in the same build, or - staggered - one after the other (a retired schema
+	// id every few batches)
+	r.Layer("wide", e.Pick(6, 30), func(c *vc.Case) {
+		sig := canon.Signal(c.Idx % 3)
+		o := RandomOpts(c.R)
+		o.SpanOrder, o.A16, o.A32 = -1, -1, -1
+		o.Limit = []string{"8", "16", "default", "none"}[c.R.IntN(4)]
+		var h *History
+		if (c.Idx/3)%2 == 0 {
+			h = WideHistory(sig, 3, 300, 0)
+		} else {
+			h = WideHistory(sig, 50, 120, 1)
+		}
+		fm, _ := frameHistory(c, h, o, "C12")
+		c.FP(h.Script, sig.String(), o.String(), fmt.Sprintf("ret=%d rep=%d", fm.RetiredIDs, fm.DictReplacements))
+		c.Nontrivial(fm.RetiredIDs > 0 || fm.DictReplacements > 0)
+		c.Sample(map[string]any{"script": h.Script, "signal": sig.String(), "options": o.String(), "retired_schema_ids": fm.RetiredIDs})
+	})
 	// cardinality ramps under small limits: schema changes by overflow, resets under an unchanged schema
 	r.Layer("ramp", e.Pick(24, 240), func(c *vc.Case) {
 		sig := canon.Signal(c.Idx % 3)
